@@ -828,6 +828,12 @@ static void smix1(uint8_t *B, size_t r, uint32_t N, yescrypt_flags_t flags,
     salsa20_blk_t *V, uint32_t NROM, const salsa20_blk_t *VROM,
     salsa20_blk_t *XY, pwxform_ctx_t *ctx)
 {
+#ifdef XCRYPT_VERIF
+	{
+		uint64_t verif_v[3] = { (uint64_t)r, (uint64_t)N, (uint64_t)flags };
+		VERIF_EV("smix1", verif_v, sizeof verif_v, verif_v, 0, verif_v, 0);
+	}
+#endif
 	size_t s = 2 * r;
 	salsa20_blk_t *X = V, *Y = &V[s];
 	uint32_t i, j;
@@ -945,6 +951,12 @@ static void smix2(uint8_t *B, size_t r, uint32_t N, uint64_t Nloop,
     yescrypt_flags_t flags, salsa20_blk_t *V, uint32_t NROM,
     const salsa20_blk_t *VROM, salsa20_blk_t *XY, pwxform_ctx_t *ctx)
 {
+#ifdef XCRYPT_VERIF
+	{
+		uint64_t verif_v[4] = { (uint64_t)r, (uint64_t)N, Nloop, (uint64_t)flags };
+		VERIF_EV("smix2", verif_v, sizeof verif_v, verif_v, 0, verif_v, 0);
+	}
+#endif
 	size_t s = 2 * r;
 	salsa20_blk_t *X = XY, *Y = &XY[s];
 	uint32_t i, j;
@@ -1406,6 +1418,14 @@ int yescrypt_kdf(const yescrypt_shared_t *shared, yescrypt_local_t *local,
 	uint64_t NROM = params->NROM;
 	uint8_t dk[32];
 	int retval;
+
+#ifdef XCRYPT_VERIF
+	{
+		uint64_t verif_v[8] = { (uint64_t)flags, N, (uint64_t)r, (uint64_t)p,
+		    (uint64_t)t, (uint64_t)g, NROM, (uint64_t)passwdlen };
+		VERIF_EV("ykdf", verif_v, sizeof verif_v, salt, saltlen, verif_v, 0);
+	}
+#endif
 
 	/* Support for hash upgrades has been temporarily removed */
 	if (g) {
